@@ -748,3 +748,339 @@ Lemma view_matches_clean sh :
   (forall p u, dget (view sh) p = Some u <-> exists r, In r (nsl sh) /\ prefix r = p /\ uri r = u) /\
   clean sh = (sh, Ok).
 Proof. intros Hc. split; [now apply view_clean|]. split; [intros; now apply view_binds|now apply clean_noop]. Qed.
+
+
+(* ================================================================== mixed histories: namespace + selector-side operations *)
+(* every selector item that carries a non-empty string URI is declared by some @namespace rule *)
+Definition Bound (sh : sheet) : Prop :=
+  forall k u n, In (IPair k (UStr u) n) (items_of sh) -> u <> [] -> 1 <= cnt u sh.
+
+Lemma dget_In_vals d k v : dget d k = Some v -> In v (dvals d).
+Proof.
+  induction d as [|[k' v'] t IH]; simpl; [discriminate|]. destruct (eqs k' k); intros H; [inversion H; now left|right; auto].
+Qed.
+Lemma dset_vals d k v x : In x (dvals (dset d k v)) -> In x (dvals d) \/ x = v.
+Proof.
+  induction d as [|[k' v'] t IH]; simpl; [intros [H|[]]; auto|].
+  destruct (eqs k' k); simpl; intros [H|H]; auto. destruct (IH H); auto.
+Qed.
+Lemma view_vals_declared l u : In u (dvals (view_of l)) -> exists r, In r l /\ uri r = u.
+Proof.
+  induction l as [|r t IH]; simpl; [tauto|]. unfold view_step.
+  destruct (mems (uri r) (dvals (view_of t))).
+  - intros H. destruct (IH H) as (r' & H1 & H2). eauto.
+  - intros H. apply dset_vals in H as [H|H]; [destruct (IH H) as (r' & H1 & H2); eauto|eauto].
+Qed.
+Lemma view_get_declared sh p u : dget (view sh) p = Some u -> 1 <= cnt u sh.
+Proof. intros H. apply cnt_In. apply view_vals_declared. now apply dget_In_vals in H. Qed.
+
+Lemma default_of_str d u : default_of d = UStr u -> dget d [] = Some u.
+Proof. unfold default_of. destruct (dget d []); intros H; inversion H; reflexivity. Qed.
+
+(* an item resolved against a dictionary whose entries are all declared is bound to a declared URI *)
+Lemma resolve_declared_gen d (P : str -> Prop) pi k u n :
+  (forall p, dget d p = Some u -> P u) ->
+  resolve d pi = Some (IPair k (UStr u) n) -> u <> [] -> P u.
+Proof.
+  intros GET H Hu. apply resolve_binds in H. destruct pi as [k' f n'|]; simpl in H; [|discriminate].
+  destruct k', f; simpl in H; try discriminate;
+    try (destruct H as (u' & Hp & E); injection E as _ E2 _; subst u'; now apply (GET p));
+    try (injection H as _ E _; first [ congruence | symmetry in E; apply default_of_str in E; now apply (GET []) ]).
+Qed.
+Lemma resolve_declared sh pi k u n :
+  resolve (view sh) pi = Some (IPair k (UStr u) n) -> u <> [] -> 1 <= cnt u sh.
+Proof. apply (resolve_declared_gen (view sh) (fun u => 1 <= cnt u sh)). intros p. apply view_get_declared. Qed.
+
+Definition New (sh : sheet) (it : item) : Prop := exists pi, resolve (view sh) pi = Some it.
+
+Lemma resolve_all_In d l r it : resolve_all d l = Some r -> In it r -> exists pi, resolve d pi = Some it.
+Proof.
+  revert r; induction l as [|x t IH]; simpl; intros r H Hin.
+  - inversion H; subst. destruct Hin.
+  - destruct (resolve d x) eqn:E1; [|discriminate]. destruct (resolve_all d t) eqn:E2; [|discriminate].
+    inversion H; subst. destruct Hin as [<-|Hin]; eauto.
+Qed.
+
+Lemma in_items_nth sh r x it : nth_error sh r = Some x -> In it (rule_items x) -> In it (items_of sh).
+Proof.
+  revert r; induction sh as [|y t IH]; intros [|r] H Hin; simpl in H; try discriminate.
+  - inversion H; subst. unfold items_of. simpl. apply in_or_app. now left.
+  - unfold items_of in *. simpl. apply in_or_app. right. now apply (IH r).
+Qed.
+Lemma in_set_nth {A} i (x y : A) l : In y (set_nth i x l) -> In y l \/ y = x.
+Proof.
+  revert i; induction l as [|z t IH]; intros [|i]; simpl; auto.
+  - intros [H|H]; auto.
+  - intros [H|H]; auto. destruct (IH i H); auto.
+Qed.
+Lemma in_remove_at {A} i (y : A) l : In y (remove_at i l) -> In y l.
+Proof. revert i; induction l as [|z t IH]; intros [|i]; simpl; auto. intros [H|H]; auto. right. now apply (IH i). Qed.
+Lemma in_insert_at {A} i (x y : A) l : In y (insert_at i x l) -> In y l \/ y = x.
+Proof.
+  revert l; induction i as [|i IH]; intros l; simpl; [intros [H|H]; auto|].
+  destruct l as [|z t]; simpl; [intros [H|[]]; auto|]. intros [H|H]; auto. destruct (IH t H); auto.
+Qed.
+Lemma items_cons x t it : In it (items_of (x :: t)) <-> In it (rule_items x) \/ In it (items_of t).
+Proof. unfold items_of. simpl. rewrite in_app_iff. tauto. Qed.
+Lemma items_set_nth r y sh it :
+  In it (items_of (set_nth r y sh)) -> In it (items_of sh) \/ In it (rule_items y).
+Proof.
+  revert r; induction sh as [|z t IH]; intros [|r]; cbn [set_nth]; auto; rewrite !items_cons; intros [H|H]; auto.
+  destruct (IH r H); auto.
+Qed.
+Lemma items_insert_at i y sh it :
+  In it (items_of (insert_at i y sh)) -> In it (items_of sh) \/ In it (rule_items y).
+Proof.
+  revert sh; induction i as [|i IH]; intros sh; cbn [insert_at].
+  - rewrite items_cons. tauto.
+  - destruct sh as [|z t]; rewrite !items_cons; [tauto|]. intros [H|H]; auto. destruct (IH t H); auto.
+Qed.
+Lemma items_remove_at i sh it : In it (items_of (remove_at i sh)) -> In it (items_of sh).
+Proof.
+  revert i; induction sh as [|z t IH]; intros [|i]; cbn [remove_at]; auto; rewrite !items_cons; auto.
+  intros [H|H]; auto. right. now apply (IH i).
+Qed.
+Lemma in_concat_set_nth {A} j (its : list A) rs it : In it (concat (set_nth j its rs)) -> In it (concat rs) \/ In it its.
+Proof.
+  intros H. apply in_concat in H as (l & Hl & Hin). apply in_set_nth in Hl as [Hl| ->]; auto.
+  left. apply in_concat. eauto.
+Qed.
+Lemma get_style_items a sh its it : get_style a sh = Some its -> In it its -> In it (items_of sh).
+Proof.
+  destruct a as [r|r j]; simpl.
+  - destruct (nth_error sh r) as [[| | | |]|] eqn:E; try discriminate. intros H Hin. inversion H; subst.
+    now apply (in_items_nth sh r (RStyle its)).
+  - destruct (nth_error sh r) as [[| | | |]|] eqn:E; try discriminate. intros H Hin.
+    apply (in_items_nth sh r (RMedia rs)); [exact E|]. simpl. apply in_concat. exists its. split; [|exact Hin].
+    now apply nth_error_In in H.
+Qed.
+Lemma put_style_items a its' sh it :
+  In it (items_of (put_style a its' sh)) -> In it (items_of sh) \/ In it its'.
+Proof.
+  destruct a as [r|r j]; simpl.
+  - apply items_set_nth.
+  - destruct (nth_error sh r) as [[| | | |]|] eqn:E; auto. intros H. apply items_set_nth in H as [H|H]; auto.
+    simpl in H. apply in_concat_set_nth in H as [H|H]; auto. left. now apply (in_items_nth sh r (RMedia rs)).
+Qed.
+
+Lemma sstep_items o sh it : In it (items_of (fst (sstep o sh))) -> In it (items_of sh) \/ New sh it.
+Proof.
+  unfold New. destruct o; simpl.
+  - destruct (get_style a sh) as [its|] eqn:G; [|auto]. destruct (Nat.ltb i (length its)); [|auto].
+    destruct (resolve (view sh) pi) as [x|] eqn:R; [|auto]. simpl. intros H.
+    apply put_style_items in H as [H|H]; auto. apply in_set_nth in H as [H| ->]; eauto.
+    left. now apply (get_style_items a sh its).
+  - destruct (get_style a sh) as [its|] eqn:G; [|auto].
+    destruct (resolve_all (view sh) l) as [r|] eqn:R; [|auto]. simpl. intros H.
+    apply put_style_items in H as [H|H]; auto. right. now apply (resolve_all_In _ l r).
+  - destruct (get_style a sh) as [its|] eqn:G; [|auto].
+    destruct (resolve (view sh) pi) as [x|] eqn:R; [|auto]. simpl. intros H.
+    apply put_style_items in H as [H|H]; auto. apply in_app_or in H as [H|[<-|[]]]; eauto.
+    apply filter_In in H as [H _]. left. now apply (get_style_items a sh its).
+  - destruct (get_style a sh) as [its|] eqn:G; [|auto].
+    destruct (Nat.ltb i (length its) && Nat.ltb 1 (length its)); [|auto]. simpl. intros H.
+    apply put_style_items in H as [H|H]; auto. apply in_remove_at in H. left. now apply (get_style_items a sh its).
+  - destruct idx as [i|].
+    + destruct (Nat.ltb (length sh) i); [auto|]. destruct (resolve_all (view sh) l) as [r|] eqn:R; [|auto].
+      destruct (existsb blocks_body (skipn i sh)); [auto|]. simpl. intros H.
+      apply items_insert_at in H as [H|H]; auto. right. now apply (resolve_all_In _ l r).
+    + destruct (resolve_all (view sh) l) as [r|] eqn:R; [|auto]. simpl. rewrite items_of_app. intros H.
+      apply in_app_or in H as [H|H]; auto. apply items_cons in H as [H|[]]. right. now apply (resolve_all_In _ l r).
+  - destruct (nth_error sh r) as [[| | | |]|] eqn:E; auto.
+    destruct (Nat.ltb (length rs) _); [auto|]. destruct (resolve_all (view sh) l) as [r'|] eqn:R; [|auto].
+    simpl. intros H. apply items_set_nth in H as [H|H]; auto. simpl in H.
+    apply in_concat in H as (x & Hx & Hin). apply in_insert_at in Hx as [Hx| ->].
+    + left. apply (in_items_nth sh r (RMedia rs)); [exact E|]. simpl. apply in_concat. eauto.
+    + right. now apply (resolve_all_In _ l r').
+  - destruct a as [r|r j].
+    + destruct (nth_error sh r) as [[| | | |]|] eqn:E; auto. simpl. intros H. left. now apply (items_remove_at r).
+    + destruct (nth_error sh r) as [[| | | |]|] eqn:E; auto. destruct (Nat.ltb j (length rs)); [|auto].
+      simpl. intros H. apply items_set_nth in H as [H|H]; auto. simpl in H. left.
+      apply (in_items_nth sh r (RMedia rs)); [exact E|]. simpl.
+      apply in_concat in H as (x & Hx & Hin). apply in_remove_at in Hx. apply in_concat. eauto.
+Qed.
+
+(* selector-side operations never touch an @namespace rule *)
+Lemma nsl_set_nth r x y sh :
+  nth_error sh r = Some x -> is_ns x = false -> is_ns y = false -> nsl (set_nth r y sh) = nsl sh.
+Proof.
+  revert r; induction sh as [|z t IH]; intros [|r] H Hx Hy; simpl in *; try discriminate.
+  - inversion H; subst. destruct x, y; simpl in *; try discriminate; reflexivity.
+  - destruct z; simpl; rewrite ?(IH r H Hx Hy); reflexivity.
+Qed.
+Lemma nsl_insert_other i y sh : is_ns y = false -> nsl (insert_at i y sh) = nsl sh.
+Proof.
+  intros Hy. revert sh; induction i as [|i IH]; intros sh; simpl.
+  - destruct y; simpl in *; try discriminate; reflexivity.
+  - destruct sh as [|z t]; simpl; [destruct y; simpl in *; try discriminate; reflexivity|].
+    destruct z; simpl; rewrite ?IH; reflexivity.
+Qed.
+Lemma nsl_put_style a its its' sh : get_style a sh = Some its -> nsl (put_style a its' sh) = nsl sh.
+Proof.
+  destruct a as [r|r j]; simpl.
+  - destruct (nth_error sh r) as [[| | | |]|] eqn:E; try discriminate. intros _. now apply (nsl_set_nth r (RStyle its0)).
+  - destruct (nth_error sh r) as [[| | | |]|] eqn:E; try discriminate. intros _. now apply (nsl_set_nth r (RMedia rs)).
+Qed.
+Lemma sstep_nsl o sh : nsl (fst (sstep o sh)) = nsl sh.
+Proof.
+  destruct o; simpl.
+  - destruct (get_style a sh) as [its|] eqn:G; [|reflexivity]. destruct (Nat.ltb i (length its)); [|reflexivity].
+    destruct (resolve (view sh) pi); [|reflexivity]. simpl. now apply (nsl_put_style a its).
+  - destruct (get_style a sh) as [its|] eqn:G; [|reflexivity].
+    destruct (resolve_all (view sh) l); [|reflexivity]. simpl. now apply (nsl_put_style a its).
+  - destruct (get_style a sh) as [its|] eqn:G; [|reflexivity].
+    destruct (resolve (view sh) pi); [|reflexivity]. simpl. now apply (nsl_put_style a its).
+  - destruct (get_style a sh) as [its|] eqn:G; [|reflexivity].
+    destruct (Nat.ltb i (length its) && Nat.ltb 1 (length its)); [|reflexivity]. simpl. now apply (nsl_put_style a its).
+  - destruct idx as [i|].
+    + destruct (Nat.ltb (length sh) i); [reflexivity|]. destruct (resolve_all (view sh) l); [|reflexivity].
+      destruct (existsb blocks_body (skipn i sh)); [reflexivity|]. simpl. now apply nsl_insert_other.
+    + destruct (resolve_all (view sh) l); [|reflexivity]. simpl. rewrite nsl_app. simpl. now rewrite app_nil_r.
+  - destruct (nth_error sh r) as [[| | | |]|] eqn:E; try reflexivity.
+    destruct (Nat.ltb (length rs) _); [reflexivity|]. destruct (resolve_all (view sh) l); [|reflexivity].
+    simpl. now apply (nsl_set_nth r (RMedia rs)).
+  - destruct a as [r|r j].
+    + destruct (nth_error sh r) as [[| | | |]|] eqn:E; try reflexivity. simpl. now apply (nsl_remove_other r sh (RStyle its)).
+    + destruct (nth_error sh r) as [[| | | |]|] eqn:E; try reflexivity. destruct (Nat.ltb j (length rs)); [|reflexivity].
+      simpl. now apply (nsl_set_nth r (RMedia rs)).
+Qed.
+
+Lemma sstep_bound o sh : Bound sh -> Bound (fst (sstep o sh)).
+Proof.
+  intros Hb k u n Hin Hu. unfold cnt. rewrite sstep_nsl. apply sstep_items in Hin as [Hin|(pi & Hr)].
+  - now apply (Hb k u n).
+  - now apply (resolve_declared sh pi k u n).
+Qed.
+Lemma step_bound o sh : Bound sh -> Bound (fst (step o sh)).
+Proof.
+  intros Hb k u n Hin Hu. rewrite step_items in Hin.
+  apply step_count; [now apply (pair_used k u n)|now apply (Hb k u n)].
+Qed.
+Lemma mstep_bound o sh : Bound sh -> Bound (fst (mstep o sh)).
+Proof. destruct o; simpl; [apply step_bound|apply sstep_bound]. Qed.
+Lemma mrun_bound ops : forall sh, Bound sh -> Bound (mrun ops sh).
+Proof. induction ops as [|o t IH]; intros sh H; simpl; [exact H|]. apply IH. now apply mstep_bound. Qed.
+
+(* parsing establishes Bound *)
+Definition repl (p u : str) (r : nsrule) : nsrule :=
+  if eqs (prefix r) p then mkNs (prefix r) u (replace_uri_item u (items r)) else r.
+Lemma nsl_map_replace p u sh : nsl (map (replace_uri p u) sh) = map (repl p u) (nsl sh).
+Proof.
+  induction sh as [|x t IH]; simpl; [reflexivity|]. destruct x; simpl; try exact IH.
+  unfold repl. destruct (eqs (prefix r) p); simpl; now rewrite IH.
+Qed.
+Lemma items_map_replace p u sh : items_of (map (replace_uri p u) sh) = items_of sh.
+Proof.
+  unfold items_of. induction sh as [|x t IH]; simpl; [reflexivity|]. rewrite IH. f_equal.
+  destruct x; simpl; auto. destruct (eqs (prefix r) p); reflexivity.
+Qed.
+
+Definition DictOk (d : dict) (sh : sheet) : Prop :=
+  forall p u, dget d p = Some u -> exists r, In r (nsl sh) /\ prefix r = p /\ uri r = u.
+
+Lemma resolve_dict_declared d sh pi k u n :
+  DictOk d sh -> resolve d pi = Some (IPair k (UStr u) n) -> u <> [] -> 1 <= cnt u sh.
+Proof.
+  intros Hd. apply (resolve_declared_gen d (fun u => 1 <= cnt u sh)).
+  intros p Hp. apply cnt_In. destruct (Hd p u Hp) as (r & H1 & _ & H3). eauto.
+Qed.
+
+Lemma resolve_rules_In d rs it :
+  In it (concat (resolve_rules d rs)) -> exists pi, resolve d pi = Some it.
+Proof.
+  induction rs as [|x t IH]; simpl; [tauto|]. destruct (resolve_all d x) as [r|] eqn:E; [|exact IH].
+  simpl. intros H. apply in_app_or in H as [H|H]; [now apply (resolve_all_In d x r)|auto].
+Qed.
+
+Lemma bound_snoc_body sh d x :
+  DictOk d sh -> Bound sh -> is_ns x = false ->
+  (forall it, In it (rule_items x) -> exists pi, resolve d pi = Some it) -> Bound (sh ++ [x]).
+Proof.
+  intros Hd Hb Hx Hn k u n Hin Hu. unfold cnt. rewrite nsl_app.
+  replace (nsl [x]) with (@nil nsrule) by (destruct x; simpl in *; try discriminate; reflexivity).
+  rewrite app_nil_r. rewrite items_of_app in Hin. apply in_app_or in Hin as [Hin|Hin]; [now apply (Hb k u n)|].
+  apply items_cons in Hin as [Hin|[]]. destruct (Hn _ Hin) as (pi & Hr).
+  now apply (resolve_dict_declared d sh pi k u n).
+Qed.
+Lemma dictok_snoc_other d sh x : DictOk d sh -> is_ns x = false -> DictOk d (sh ++ [x]).
+Proof.
+  intros Hd Hx p u H. destruct (Hd p u H) as (r & H1 & H2). exists r. split; [|exact H2].
+  rewrite nsl_app. apply in_or_app. now left.
+Qed.
+
+Lemma parse_loop_bound l : forall d e sh,
+  DictOk d sh -> Bound sh -> (e <= 2 -> items_of sh = []) -> Bound (parse_loop d e sh l).
+Proof.
+  induction l as [|x t IH]; intros d e sh Hd Hb He; simpl; [exact Hb|].
+  destruct x.
+  - destruct (Nat.ltb 2 e) eqn:E; [now apply IH|]. apply Nat.ltb_ge in E. specialize (He E).
+    destruct (dhas d p) eqn:Eh.
+    + apply IH.
+      * intros q v Hq. rewrite nsl_map_replace. destruct (eqs q p) eqn:Eq.
+        -- apply eqs_spec in Eq. subst q. rewrite dget_dset_same in Hq. inversion Hq; subst.
+           unfold dhas in Eh. destruct (dget d p) as [old|] eqn:Eo; [|discriminate].
+           destruct (Hd p old Eo) as (r & H1 & H2 & H3). exists (repl p v r). split; [now apply in_map|].
+           unfold repl. rewrite H2, eqs_refl. simpl. auto.
+        -- apply eqs_false in Eq. rewrite dget_dset_other in Hq by exact Eq.
+           destruct (Hd q v Hq) as (r & H1 & H2 & H3). exists r. split.
+           ++ replace r with (repl p u r); [now apply in_map|]. unfold repl.
+              destruct (eqs (prefix r) p) eqn:E2; [apply eqs_spec in E2; congruence|reflexivity].
+           ++ auto.
+      * intros k v n Hin. rewrite items_map_replace, He in Hin. destruct Hin.
+      * intros _. now rewrite items_map_replace.
+    + apply IH.
+      * intros q v Hq. rewrite nsl_app. simpl. destruct (eqs q p) eqn:Eq.
+        -- apply eqs_spec in Eq. subst q. rewrite dget_dset_same in Hq. inversion Hq; subst.
+           exists (mk_text p v). split; [apply in_or_app; right; now left|]. destruct p; auto.
+        -- apply eqs_false in Eq. rewrite dget_dset_other in Hq by exact Eq.
+           destruct (Hd q v Hq) as (r & H1 & H2). exists r. split; [apply in_or_app; now left|exact H2].
+      * intros k v n Hin. rewrite items_of_app, He in Hin. destruct Hin.
+      * intros _. rewrite items_of_app, He. reflexivity.
+  - destruct (resolve_all d l) as [r|] eqn:R; apply IH; try assumption; try (intros; lia).
+    + now apply dictok_snoc_other.
+    + apply (bound_snoc_body sh d); auto. simpl. intros it Hin. now apply (resolve_all_In d l r).
+  - apply IH; try (intros; lia).
+    + now apply dictok_snoc_other.
+    + apply (bound_snoc_body sh d); auto. simpl. apply resolve_rules_In.
+  - destruct (Nat.ltb 0 e) eqn:E; [now apply IH|]. apply IH.
+    + now apply dictok_snoc_other.
+    + apply (bound_snoc_body sh d); auto. simpl. tauto.
+    + intros _. rewrite items_of_app, He by (apply Nat.ltb_ge in E; lia). reflexivity.
+  - apply IH.
+    + now apply dictok_snoc_other.
+    + apply (bound_snoc_body sh d); auto. simpl. tauto.
+    + intros H. assert (H' : e <= 2) by (destruct e; lia). rewrite items_of_app, (He H'). reflexivity.
+Qed.
+
+Lemma clean_bound sh : Bound sh -> Bound (fst (clean sh)).
+Proof.
+  intros Hb k u n Hin Hu. rewrite items_of_clean in Hin. unfold clean. apply clean_loop_count; simpl.
+  - now apply (pair_used k u n).
+  - now apply (Hb k u n).
+Qed.
+
+Lemma parse_bound l : Bound (fst (parse l)).
+Proof.
+  unfold parse. apply clean_bound. apply parse_loop_bound.
+  - intros p u H. discriminate.
+  - intros k u n H. destruct H.
+  - reflexivity.
+Qed.
+
+(* the statement for histories that mix both kinds of operation *)
+Lemma used_uri_declared_mixed stmts ops k u n :
+  In (IPair k (UStr u) n) (items_of (mrun ops (fst (parse stmts)))) -> u <> [] ->
+  exists r, In r (nsl (mrun ops (fst (parse stmts)))) /\ uri r = u.
+Proof. intros H Hu. apply cnt_In. now apply (mrun_bound ops _ (parse_bound stmts) k u n). Qed.
+
+Lemma delete_protected_bound sh i r k n :
+  nth_error sh i = Some (RNs r) -> In (IPair k (UStr (uri r)) n) (items_of sh) -> cnt (uri r) sh = 1 ->
+  mstep (MN (ODelRule i)) sh = (sh, Raise ENoMod).
+Proof.
+  intros Hn Hin Hc. simpl. apply (delete_protected_step sh i r Hn); [now apply (pair_used k _ n)|exact Hc].
+Qed.
+
+Lemma selector_op_spec o sh :
+  nsl (fst (sstep o sh)) = nsl sh /\
+  forall it, In it (items_of (fst (sstep o sh))) -> In it (items_of sh) \/ exists pi, resolve (view sh) pi = Some it.
+Proof. split; [apply sstep_nsl|intros it; apply sstep_items]. Qed.
